@@ -1181,12 +1181,6 @@ class VectorQuantize(Module):
             else:
                 embed_ind = rearrange(embed_ind, '1 (b h) n -> b n h', h = heads)
 
-        if self.accept_image_fmap:
-            embed_ind = rearrange(embed_ind, 'b (h w) ... -> b h w ...', h = height, w = width)
-
-        if only_one:
-            embed_ind = rearrange(embed_ind, 'b 1 ... -> b ...')
-
         # aggregate loss
 
         loss = torch.tensor([0.], device = device, requires_grad = self.training)
@@ -1246,6 +1240,14 @@ class VectorQuantize(Module):
 
                 orthogonal_reg_loss = orthogonal_loss_fn(codebook)
                 loss = loss + orthogonal_reg_loss * self.orthogonal_reg_weight
+
+        # restore image / single token layout of the indices (after the losses, which index the distances by sequence position)
+
+        if self.accept_image_fmap:
+            embed_ind = rearrange(embed_ind, 'b (h w) ... -> b h w ...', h = height, w = width)
+
+        if only_one:
+            embed_ind = rearrange(embed_ind, 'b 1 ... -> b ...')
 
         # handle multi-headed quantized embeddings
 
